@@ -396,7 +396,8 @@ class SpawnProcess(multiprocessing.context.SpawnProcess):
         # if exitcode >= 0:
         #     raise ValueError(f'expecting negative `exitcode` but got {exitcode}')
 
-        if self._future_.exception():
+        if self._future_.exception() is not None:
+            # Not a truth test: an exception object may be falsy (e.g. it defines `__len__`).
             raise self._future_.exception()
         # else:
         #     raise ChildProcessError(
